@@ -1768,24 +1768,27 @@ func (p *parser) scanCharSet(caseInsensitive, scanOnly bool) (*CharSet, error) {
 					return nil, p.getErr(ErrShorthandClassInCharRange, string(ch))
 				}
 				if p.useOptionE() && !p.useOptionU() && ch == 'p' {
-					if !scanOnly {
-						if inRange {
+					// the pre-scan steps over the same text as the main parse
+					if inRange {
+						if !scanOnly {
 							if chPrev > ch {
 								return nil, p.getErr(ErrReversedCharRange, chPrev, ch)
 							}
 							cc.addRange(chPrev, ch)
-							inRange = false
-						} else if p.charsRight() >= 2 && p.rightChar(0) == '-' && p.rightChar(1) != ']' {
+						}
+						inRange = false
+					} else if p.charsRight() >= 2 && p.rightChar(0) == '-' && p.rightChar(1) != ']' {
+						p.moveRight(1)
+						chLast := p.moveRightGetChar()
+						if !scanOnly {
 							cc.addChar('-')
-							p.moveRight(1)
-							chLast := p.moveRightGetChar()
 							if ch > chLast {
 								return nil, p.getErr(ErrReversedCharRange, ch, chLast)
 							}
 							cc.addRange(ch, chLast)
-						} else {
-							cc.addChar(ch)
 						}
+					} else if !scanOnly {
+						cc.addChar(ch)
 					}
 					continue
 				}
@@ -1863,11 +1866,12 @@ func (p *parser) scanCharSet(caseInsensitive, scanOnly bool) (*CharSet, error) {
 
 		if inRange {
 			inRange = false
-			if !scanOnly {
-				if ch == '[' && !fTranslatedChar && !firstChar {
-					// We thought we were in a range, but we're actually starting a subtraction.
-					// In that case, we'll add chPrev to our char class, skip the opening [, and
-					// scan the new character class recursively.
+			if ch == '[' && !fTranslatedChar && !firstChar {
+				// We thought we were in a range, but we're actually starting a subtraction.
+				// In that case, we'll add chPrev to our char class, skip the opening [, and
+				// scan the new character class recursively (in the pre-scan too: it has
+				// to step over the same text as the main parse).
+				if !scanOnly {
 					cc.addChar(chPrev)
 					sub, err := p.scanCharSet(caseInsensitive, false)
 					if err != nil {
@@ -1879,12 +1883,14 @@ func (p *parser) scanCharSet(caseInsensitive, scanOnly bool) (*CharSet, error) {
 						return nil, p.getErr(ErrSubtractionMustBeLast)
 					}
 				} else {
-					// a regular range, like a-z
-					if chPrev > ch {
-						return nil, p.getErr(ErrReversedCharRange, chPrev, ch)
-					}
-					cc.addRange(chPrev, ch)
+					_, _ = p.scanCharSet(caseInsensitive, true)
 				}
+			} else if !scanOnly {
+				// a regular range, like a-z
+				if chPrev > ch {
+					return nil, p.getErr(ErrReversedCharRange, chPrev, ch)
+				}
+				cc.addRange(chPrev, ch)
 			}
 		} else if p.charsRight() >= 2 && p.rightChar(0) == '-' && p.rightChar(1) != ']' {
 			// this could be the start of a range
